@@ -13,10 +13,12 @@ import os
 from lib import vf, expand
 
 MARK = {"doc": "/// MARKER-DOC", "lint": "#[allow(unused_variables)]", "cfgon": "#[cfg(all())]", "cfgoff": "#[cfg(any())]",
-        "tool": "#[rustfmt::skip]", "inert": "#[must_use]", "cfgattr": "#[cfg_attr(all(), allow(unused_variables))]", "cfgonoff": "#[cfg(all())]\n    #[cfg(any())]"}
+        "tool": "#[rustfmt::skip]", "inert": "#[must_use]", "cfgattr": "#[cfg_attr(all(), allow(unused_variables))]", "cfgonoff": "#[cfg(all())]\n    #[cfg(any())]",
+        "cfgattroff": "#[cfg_attr(all(), cfg(any()))]"}
 TEXT = {"doc": '# [ doc = " MARKER-DOC" ]', "lint": "# [ allow ( unused_variables ) ]", "cfgon": "# [ cfg ( all ( ) ) ]",
         "cfgoff": "# [ cfg ( any ( ) ) ]", "tool": "# [ rustfmt :: skip ]", "inert": "# [ must_use ]",
-        "cfgattr": "# [ cfg_attr ( all ( ) , allow ( unused_variables ) ) ]", "cfgonoff": "# [ cfg ( any ( ) ) ]"}
+        "cfgattr": "# [ cfg_attr ( all ( ) , allow ( unused_variables ) ) ]", "cfgonoff": "# [ cfg ( any ( ) ) ]",
+        "cfgattroff": "# [ cfg_attr ( all ( ) , cfg ( any ( ) ) ) ]"}
 
 
 def render(i):
